@@ -90,6 +90,16 @@ CHECKS = {
             '(power-up) is not judged; stack push+pop together and pop on empty are unconstrained.',
             'TLC exploration of reference state machines with transition-covering replay into py4hw and TLC trace validation',
             'DESIGN.md section 4, C09'),
+    'C15': ('model_checking',
+            'TLC explores MC_Waveform (recorder + WaveDrom codec of Waveform.tla) for every watch-list shape (wire, duplicate, port '
+            'alias), input history, clk(n) splitting, clear() and rendering request, checking one sample per cycle, sample = pre-edge '
+            'value and Decode(Render(d)) = d with the lane spanning the recorded cycles; the run-length codec is checked for all sample '
+            'sequences up to length 5-6. One call history per transition is replayed on the real Waveform; getDict()/get_wavedrom() '
+            'and the pre-edge values seen by an independent listener are judged by TLC (Trace_Waveform); seeded random recordings on '
+            '4-12 bit wires as well.',
+            'FieldInspector/ValueFormatter entries and the GUI are outside the model.',
+            'TLC model checking of the recorder/codec specification; transition-covering replay; TLC validation of real recordings and renderings',
+            'DESIGN.md section 4, C15'),
 }
 
 PENDING = {}
